@@ -1521,6 +1521,54 @@ pub fn suite_small_values(out: &mut Out, tier: &str, rng: &mut Rng) {
 }
 
 
+/// every AVP length 6..=1023 (all ten bits of the length field, in both octets) and message lengths with every
+/// bit of the 16-bit Length field set / clear around powers of two: encoded, decoded, re-encoded
+pub fn suite_avp_lengths(out: &mut Out, tier: &str, rng: &mut Rng) {
+    for total in 6usize..=1023 {
+        let n = total - 6;
+        // a payload-less record only exists for kinds that may be empty; HostName needs >= 1 octet to round-trip
+        let kinds: Vec<Value> = if n == 0 {
+            vec![json!({"k": "SequencingRequired", "f": []}), json!({"k": "Hidden", "f": [rng.u16(), []]})]
+        } else {
+            vec![host(n, rng), json!({"k": "Hidden", "f": [rng.u16(), bytes_json(&rng.bytes(n))]})]
+        };
+        for (i, a) in kinds.iter().enumerate() {
+            out.emit(json!({"op": "roundtrip", "kind": "avp", "v": a}));
+            if i == 0 || total % 4 == 0 {
+                let m = json!({"k": "Control", "length": 0, "tunnel_id": rng.u16(), "session_id": rng.u16(), "ns": rng.u16(), "nr": rng.u16(),
+                               "avps": [gen_message_type(rng), a, gen_avp(rng, 6)]});
+                let wire = enc_control(&m);
+                out.emit(json!({"op": "decode", "in": bytes_json(&wire), "opts": [true, true, true], "entry": "validate", "rdr": "slice"}));
+                if total % 8 == (i * 4) % 8 {
+                    out.emit(json!({"op": "chain", "in": bytes_json(&wire), "opts": [true, true, true]}));
+                    out.emit(json!({"op": "encode", "kind": "msg", "v": m, "prefix": bytes_json(&rng.bytes(total % 7)), "wr": if total % 16 < 8 { "vec" } else { "mon" }}));
+                }
+            }
+        }
+    }
+    // message Length: every bit position on both sides of a carry
+    let mut totals: Vec<usize> = vec![];
+    for k in 5..=15u32 {
+        let p = 1usize << k;
+        for t in [p - 1, p, p + 1, p + p / 2 - 1, p + p / 2] {
+            if t >= 12 + 8 + 7 && t <= 65535 {
+                totals.push(t);
+            }
+        }
+    }
+    if tier == "thorough" {
+        for _ in 0..60 {
+            totals.push(rng.range(27, 65535) as usize);
+        }
+    }
+    for t in totals {
+        let m = control_of_size(t, rng);
+        out.emit(json!({"op": "roundtrip", "kind": "msg", "v": m}));
+        let wire = enc_control(&m);
+        out.emit(json!({"op": "decode_seq", "in": bytes_json(&[wire.clone(), wire].concat()), "opts": [true, true, true], "entry": "validate", "max": 4}));
+    }
+}
+
 /// octets inserted at structural boundaries of a valid message (after the flags, after the header, between
 /// AVPs, at the end), with and without the Length field adjusted
 fn padded_variants(rng: &mut Rng, base: &[u8]) -> Vec<Vec<u8>> {
